@@ -1,7 +1,7 @@
 (* C10 correspondence harness: cases written by harness/py/checks/c10.py are evaluated with vm_compute.
    A case = (verb spec, input records, records observed from the scratch-built mlr).  Observed values carry their
    printed text and, when the text is a number, its exact rational value (parsed by the Python side). *)
-From Miller Require Import C10.Model C10.Verbs C10.Verbs2.
+From Miller Require Import C10.Model C10.Verbs C10.Verbs2 C10.Verbs3.
 Open Scope char_scope.
 
 Inductive vspec :=
@@ -19,7 +19,13 @@ Inductive vspec :=
 | SHistogram (lo hi : Q) (nbins : Z) (prefix : bytes) (fs : list bytes)
 | STop (n : nat) (domax : bool) (out : bytes) (fs gs : list bytes)
 | SFrequent (descending : bool) (maxn : nat) (show_counts : bool) (out : bytes) (gs : list bytes)
-| SFillDown (all only_if_absent : bool) (fs : list bytes).
+| SFillDown (all only_if_absent : bool) (fs : list bytes)
+(* Verbs3.v *)
+| SUniqA (mode : uniqa_mode) (out : bytes)
+| SUniqX (xs : list bytes) (show_counts only_n : bool) (out : bytes)
+| SFillEmpty (fill : bytes)
+| STop2 (showfull : bool) (n : nat) (domax : bool) (out : bytes) (fs gs : list bytes)
+| SStepSlwin (wins : list (nat * nat)) (fs gs : list bytes).
 
 Definition run_spec (v : vspec) (rs : list record) : list orec :=
   match v with
@@ -39,6 +45,11 @@ Definition run_spec (v : vspec) (rs : list record) : list orec :=
   | STop n mx out fs gs => verb_top n mx out fs gs rs
   | SFrequent d n sc out gs => verb_frequent d n sc out gs rs
   | SFillDown a o fs => verb_fill_down a o fs rs
+  | SUniqA mode out => verb_uniq_a mode out rs
+  | SUniqX xs c n out => verb_uniq_x xs c n out rs
+  | SFillEmpty fill => verb_fill_empty fill rs
+  | STop2 a n mx out fs gs => verb_top2 a n mx out fs gs rs
+  | SStepSlwin wins fs gs => verb_step_slwin wins fs gs rs
   end.
 
 Definition obsval := (bytes * option Q)%type.
